@@ -88,7 +88,7 @@ def r1_projections(ctx):
     fi = repo.func(f"{GR}.precompute")
     ctx.analysed(fi.qual)
     tdef = lambda outs: Obj("cascade.low.core.TaskInstance", {"definition": Obj("cascade.low.core.TaskDefinition", {"output_schema": {o: "Any" for o in outs}})})
-    job = Obj("cascade.low.core.JobInstance", {"tasks": {A: tdef(["0", "1", "2"]), B: tdef(["1"]), C: tdef(["0"]), "D": tdef(["0"]), "E": tdef(["0"])}, "edges": list(edges)}, name="JOB")
+    job = Obj("cascade.low.core.JobInstance", {"tasks": {A: tdef(["0", "1", "2"]), B: tdef(["1", "2"]), C: tdef(["0"]), "D": tdef(["0"]), "E": tdef(["0"])}, "edges": list(edges), "ext_outputs": [], "serdes": {}}, name="JOB")
     # seven components of sizes 1, 3, 2, 1, 2, 1, 1 (more than any plausible pool / batch size, and not a multiple of it)
     plain = [(["D"], ["D"]), ([A, B, C], [A]), (["E1", "E2"], ["E1"]), (["F"], ["F"]), (["G1", "G2"], ["G1"]), (["H"], ["H"]), (["I"], ["I"])]
 
@@ -116,7 +116,7 @@ def r1_projections(ctx):
     to = {k: set(v) for k, v in _as_plain(f_.get("task_o", {})).items()}
     want_eo = {dsid(A, "0"): {B, C}, dsid(B, "1"): {C}, dsid(A, "1"): {C}, dsid(A, "2"): {"E"}}
     want_ei = {B: {dsid(A, "0")}, C: {dsid(A, "0"), dsid(B, "1"), dsid(A, "1")}, "E": {dsid(A, "2")}}
-    want_to = {A: {dsid(A, "0"), dsid(A, "1"), dsid(A, "2")}, B: {dsid(B, "1")}, C: {dsid(C, "0")}, "D": {dsid("D", "0")}, "E": {dsid("E", "0")}}
+    want_to = {A: {dsid(A, "0"), dsid(A, "1"), dsid(A, "2")}, B: {dsid(B, "1"), dsid(B, "2")}, C: {dsid(C, "0")}, "D": {dsid("D", "0")}, "E": {dsid("E", "0")}}
     for nm, got_, want_ in (("edge_o (consumers of each dataset)", eo, want_eo), ("edge_i (inputs of each task)", ei, want_ei), ("task_o (outputs of each task)", to, want_to)):
         if got_ != want_:
             ctx.violation("C16.R1", fi.qual, loc(fi), nm.split(" ")[0], f"model job (A.0->B, A.0->C, B.1->C, A.1->C, A.2->E; D isolated): {nm} = {vkey(got_)[:200]}, expected {vkey(want_)[:200]}")
